@@ -9,18 +9,17 @@ INVARIANT Kept
 INVARIANT LazyUnobservable
 INVARIANT Untouched
 VIEW View
-ACTION_CONSTRAINT Emit
 CHECK_DEADLOCK FALSE
 CONSTANTS
-  Sizes = {1, 2, 4}
+  Sizes = {1, 4, 8}
   FrameCounts = {1}
-  Layers = {"d1", "d2"}
-  Minors = {5}
+  Layers = {"d1", "cube"}
+  Minors = {2, 5}
   Fmts = {"RGBA8888", "ABGR8888", "RGB888", "BGR888", "RGB565", "I8", "IA88", "A8", "RGB888_BLUESCREEN", "BGR888_BLUESCREEN", "ARGB8888", "BGRA8888", "BGRX8888", "BGR565", "BGRX5551", "BGRA4444", "BGRA5551", "UV88", "UVWQ8888", "UVLX8888"}
   Lows = {"NONE"}
   ResKinds = {}
   MaxRes = 0
   Access = FALSE
-  Fills = {"l0", "all"}
-  History = FALSE
-  MaxOps = 0
+  Fills = {"l0"}
+  History = TRUE
+  MaxOps = 2
